@@ -48,6 +48,8 @@ def plan(tier, seed):
 	for kind in ('array', 'list', 'hdf5'):
 		for n in range(0, nmax + 1):
 			tasks.append(('t_index', dict(kind=kind, n=n)))
+	for kind in ('array', 'list', 'hdf5'):
+		tasks.append(('t_long_collections', dict(kind=kind, tier=tier)))
 	tasks.append(('t_mutations', dict(depth=3 if tier == 'quick' else 5, maxlen=4 if tier == 'quick' else 5)))
 	tasks.append(('t_equality', dict()))
 	return tasks
@@ -269,6 +271,52 @@ def t_index(kind, n):
 		for ix, what in index_expressions(n):
 			check_index(sh, c, ix, what)
 	sh.sample(dict(family='index', kind=kind, n=n, last_index=describe(ix)))
+	return sh
+
+
+def t_long_collections(kind, tier):
+	"""Collections whose length sits around the limits of the narrow integer types (127 / 128 / 129, 255 / 256 / 257, 32767 / 32768 / 32769,
+	thorough 65535..65537): integer scalars and index arrays of every integer dtype able to hold the values, with negative and non-negative
+	entries at both ends and in the middle; slices and masks at the same places.  Oracle: a Python list."""
+	from gambit.sigs.base import SignatureArray, SignatureList, dump_signatures, load_signatures
+	sh = Shard()
+	ns = [127, 128, 129, 200, 255, 256, 257, 32767, 32768, 32769] + ([65535, 65536, 65537] if tier != 'quick' else [])
+	with fixtures.workdir('c20L') as d:
+		for n in ns:
+			items = [np.array([i % 4000, 4001 + (i // 4000)], dtype='u2') if i % 3 else np.array([i % 4000], dtype='u2') for i in range(n)]
+			if kind == 'array':
+				obj = SignatureArray(items, kspec(), dtype=np.dtype('u2'))
+			elif kind == 'list':
+				obj = SignatureList(items, kspec(), dtype=np.dtype('u2'))
+			else:
+				p = os.path.join(d, f'L{n}.gs')
+				dump_signatures(p, SignatureArray(items, kspec(), dtype=np.dtype('u2')))
+				obj = load_signatures(p)
+			c = Coll.__new__(Coll)
+			c.kind, c.n, c.items, c.obj, c.wd = kind, n, items, obj, None
+			vals = sorted({-n - 1, -n, -n + 1, -(n // 2) - 1, -129, -128, -127, -2, -1, 0, 1, 126, 127, 128, 129, n // 2, n - 2, n - 1, n})
+			for dt in ('i1', 'i2', 'i4', 'i8', 'u1', 'u2', 'u4', 'u8'):
+				info = np.iinfo(dt)
+				fit = [v for v in vals if info.min <= v <= info.max]
+				for v in fit:
+					check_index(sh, c, np.dtype(dt).type(v), 'int')
+					check_index(sh, c, np.array([v], dtype=dt), 'ints')
+				for a, b in itertools.combinations(fit, 2):
+					if (a < 0) != (b < 0) or abs(a - b) == 1:
+						check_index(sh, c, np.array([b, a, b], dtype=dt), 'ints')
+			for v in vals:
+				check_index(sh, c, v, 'int')
+				check_index(sh, c, [v], 'ints')
+				check_index(sh, c, slice(v, None, 97), 'slice')
+				check_index(sh, c, slice(None, v, -131), 'slice')
+			m = np.zeros(n, dtype=bool)
+			m[[x for x in (0, 126, 127, 128, n // 2, n - 1) if x < n]] = True
+			check_index(sh, c, m, 'mask')
+			check_index(sh, c, m[:-1], 'mask')
+			sh.count('long_collection_lengths')
+			if kind == 'hdf5':
+				obj.close()
+	sh.sample(dict(family='long-collections', kind=kind, lengths=ns))
 	return sh
 
 
@@ -542,6 +590,7 @@ def finalize(agg, tier):
 	agg.require('mutations_that_raise', 10)
 	agg.require('equal_across_container_kinds', 10)
 	agg.require('aliasing_checks', 50)
+	agg.require('long_collection_lengths', 20)
 	agg.require('long_lived_object_histories', 1000)
 	ex = [e for e in agg.extra if 'bfs_depth' in e]
 	agg.coverage_extra['bfs_depth'] = ex[0]['bfs_depth']
@@ -550,6 +599,9 @@ def finalize(agg, tier):
 
 def replay(case, kind=None):
 	sh = Shard()
+	if 'index' in case and case['n'] > 8:
+		vs = t_long_collections(case['kind'], 'thorough').violations
+		return [v for v in vs if v['case'] == case][:1] or [v for v in vs if v['case']['n'] == case['n']][:1]
 	if 'index' in case:
 		with Coll(case['kind'], case['n']) as c:
 			check_index(sh, c, undescribe(case['index']), case['what'])
